@@ -2,8 +2,10 @@ package main
 
 import (
 	"go/ast"
+	"go/token"
 	"go/types"
 	"sort"
+	"strconv"
 	"strings"
 
 	"golang.org/x/tools/go/packages"
@@ -248,6 +250,193 @@ func compiledListsOf(p *packages.Package, fd *ast.FuncDecl) []string {
 	return rows
 }
 
+// ---- where *ast.Task values come from (the fact behind the `compiled` discharge reasons) ----
+
+func isAstTaskPtr(t types.Type) bool {
+	if sl, ok := t.Underlying().(*types.Slice); ok {
+		t = sl.Elem() // a list of tasks counts as its elements
+	}
+	p, ok := t.(*types.Pointer)
+	if !ok {
+		return false
+	}
+	n, ok := p.Elem().(*types.Named)
+	return ok && n.Obj().Name() == "Task" && n.Obj().Pkg() != nil && n.Obj().Pkg().Path() == modPath+"/taskfile/ast"
+}
+
+func funcKey(f *types.Func) string {
+	if f == nil || f.Pkg() == nil {
+		return ""
+	}
+	k := shortPkg(f.Pkg().Path()) + ":"
+	if sig, ok := f.Type().(*types.Signature); ok && sig.Recv() != nil {
+		t := sig.Recv().Type()
+		if p, ok := t.(*types.Pointer); ok {
+			t = p.Elem()
+		}
+		if n, ok := t.(*types.Named); ok {
+			k += n.Obj().Name() + "."
+		}
+	}
+	return k + f.Name()
+}
+
+// calleeKeys: the functions of this module a call may reach: the static callee, or — for a call through an
+// interface — every method of that name on a named type of the module that implements the interface
+func calleeKeys(pkgs []*packages.Package, p *packages.Package, ce *ast.CallExpr) []string {
+	var id *ast.Ident
+	switch f := ce.Fun.(type) {
+	case *ast.Ident:
+		id = f
+	case *ast.SelectorExpr:
+		id = f.Sel
+	default:
+		return nil
+	}
+	fn, ok := p.TypesInfo.Uses[id].(*types.Func)
+	if !ok || fn.Pkg() == nil || !strings.HasPrefix(fn.Pkg().Path(), modPath) {
+		return nil
+	}
+	sig := fn.Type().(*types.Signature)
+	if sig.Recv() != nil {
+		if it, ok := sig.Recv().Type().Underlying().(*types.Interface); ok {
+			var out []string
+			for _, q := range pkgs {
+				if q.Types == nil {
+					continue
+				}
+				sc := q.Types.Scope()
+				for _, nm := range sc.Names() {
+					tn, ok := sc.Lookup(nm).(*types.TypeName)
+					if !ok {
+						continue
+					}
+					if _, isIface := tn.Type().Underlying().(*types.Interface); isIface {
+						continue
+					}
+					if pos := q.Fset.Position(tn.Pos()); strings.Contains(pos.Filename, "checker_mock") || strings.HasSuffix(pos.Filename, "_test.go") {
+						continue // generated test doubles
+					}
+					for _, t := range []types.Type{tn.Type(), types.NewPointer(tn.Type())} {
+						if types.Implements(t, it) {
+							if obj, _, _ := types.LookupFieldOrMethod(t, true, q.Types, fn.Name()); obj != nil {
+								if m, ok := obj.(*types.Func); ok {
+									out = append(out, funcKey(m))
+								}
+							}
+							break
+						}
+					}
+				}
+			}
+			sort.Strings(out)
+			return out
+		}
+	}
+	return []string{funcKey(fn)}
+}
+
+// taskOrigin: where the *ast.Task (or the list read from one) denoted by e comes from, looking only at the enclosing
+// function declaration: ("param", "") — a parameter of the declared function; ("call", callee) — the result of a call,
+// through the textually last assignment of the variable before `at` (loops are not followed: straight-line reading);
+// anything else is ("other", normalised text).
+func taskOrigin(pkgs []*packages.Package, p *packages.Package, fd *ast.FuncDecl, e ast.Expr, at token.Pos, depth int) (string, string) {
+	if depth > 6 {
+		return "other", "deep"
+	}
+	switch x := e.(type) {
+	case *ast.ParenExpr:
+		return taskOrigin(pkgs, p, fd, x.X, at, depth+1)
+	case *ast.IndexExpr:
+		return taskOrigin(pkgs, p, fd, x.X, at, depth+1)
+	case *ast.CallExpr:
+		ks := calleeKeys(pkgs, p, x)
+		if len(ks) == 1 {
+			return "call", ks[0]
+		}
+		return "other", normExpr(p.TypesInfo, p.Types, x)
+	case *ast.SelectorExpr:
+		// a list field of a task (t.Sources): the task's origin
+		if bt := p.TypesInfo.TypeOf(x.X); bt != nil && isAstTaskPtr(bt) {
+			return taskOrigin(pkgs, p, fd, x.X, at, depth+1)
+		}
+		return "other", normExpr(p.TypesInfo, p.Types, x)
+	case *ast.Ident:
+		obj := p.TypesInfo.Uses[x]
+		if obj == nil {
+			obj = p.TypesInfo.Defs[x]
+		}
+		v, ok := obj.(*types.Var)
+		if !ok {
+			return "other", x.Name
+		}
+		// parameter of the declared function?
+		if fd.Type.Params != nil {
+			for _, f := range fd.Type.Params.List {
+				for _, nm := range f.Names {
+					if p.TypesInfo.Defs[nm] == v {
+						return "param", ""
+					}
+				}
+			}
+		}
+		// the textually last definition before the use
+		var best ast.Node
+		var bestRhs ast.Expr
+		var bestRange ast.Expr
+		ast.Inspect(fd.Body, func(n ast.Node) bool {
+			if n == nil || n.Pos() >= at {
+				return n == nil || n.Pos() < at
+			}
+			switch a := n.(type) {
+			case *ast.AssignStmt:
+				for i, l := range a.Lhs {
+					id, ok := l.(*ast.Ident)
+					if !ok {
+						continue
+					}
+					if p.TypesInfo.Defs[id] == v || p.TypesInfo.Uses[id] == v {
+						if best == nil || a.Pos() > best.Pos() {
+							best, bestRange = a, nil
+							if len(a.Rhs) == len(a.Lhs) {
+								bestRhs = a.Rhs[i]
+							} else if len(a.Rhs) == 1 {
+								bestRhs = a.Rhs[0]
+							}
+						}
+					}
+				}
+			case *ast.RangeStmt:
+				for _, l := range []ast.Expr{a.Key, a.Value} {
+					if id, ok := l.(*ast.Ident); ok && (p.TypesInfo.Defs[id] == v || p.TypesInfo.Uses[id] == v) {
+						if best == nil || a.Pos() > best.Pos() {
+							best, bestRhs, bestRange = a, nil, a.X
+						}
+					}
+				}
+			case *ast.ValueSpec:
+				for i, nm := range a.Names {
+					if p.TypesInfo.Defs[nm] == v && (best == nil || a.Pos() > best.Pos()) {
+						best, bestRange, bestRhs = a, nil, nil
+						if i < len(a.Values) {
+							bestRhs = a.Values[i]
+						}
+					}
+				}
+			}
+			return true
+		})
+		if bestRange != nil {
+			return taskOrigin(pkgs, p, fd, bestRange, best.Pos(), depth+1)
+		}
+		if bestRhs != nil {
+			return taskOrigin(pkgs, p, fd, bestRhs, best.Pos(), depth+1)
+		}
+		return "other", "‹" + types.TypeString(v.Type(), func(q *types.Package) string { return q.Name() }) + "› (closure parameter or never assigned)"
+	}
+	return "other", normExpr(p.TypesInfo, p.Types, e)
+}
+
 // genPanicSites: in the packages on the load / compile / resolve / list path, every
 // expression that can panic at run time by itself: index and slice expressions on slices,
 // arrays and strings (map indexing cannot panic), type assertions without comma-ok,
@@ -259,17 +448,21 @@ func genPanicSites(pkgs []*packages.Package) {
 		"internal/templater": true, "internal/deepcopy": true, "internal/env": true, "internal/filepathext": true,
 		"internal/fingerprint": true, "internal/hash": true, "internal/sort": true, "internal/summary": true,
 		"internal/editors": true, "internal/output": true, "internal/execext": true, "internal/version": true,
+		// the command-line front end, the flag / environment / .taskrc readers and the logger see user input before and
+		// around the load path
+		"cmd/task": true, "internal/flags": true, "internal/logger": true, "taskrc": true, "taskrc/ast": true,
+		"internal/fsnotifyext": true, "internal/term": true, "internal/experiments": true, "internal/slicesext": true, "internal/sysinfo": true,
 	}
 	var rows []string
 	var compiled []string
-	seen := map[string]bool{}
+	occ := map[string]int{}
 	for _, p := range pkgs {
 		if !want[shortPkg(p.PkgPath)] {
 			continue
 		}
 		for _, f := range p.Syntax {
 			fname := p.Fset.Position(f.Pos()).Filename
-			if strings.HasSuffix(fname, "_test.go") || strings.Contains(fname, "checker_mock") || strings.Contains(fname, "watch.go") {
+			if strings.HasSuffix(fname, "_test.go") || strings.Contains(fname, "checker_mock") {
 				continue
 			}
 			for _, d := range f.Decls {
@@ -304,12 +497,13 @@ func genPanicSites(pkgs []*packages.Package) {
 					}
 					return true
 				})
+				// a site is keyed by OCCURRENCE: (function, kind, normalised text, how many sites with the same key came
+				// before it in the function, in source order) — a second `xs[i]` of the same shape is a new site
 				addText := func(kind string, expr string) {
-					k := "(" + q(fn) + ", " + q(kind) + ", " + q(expr) + ")"
-					if !seen[k] {
-						seen[k] = true
-						rows = append(rows, k)
-					}
+					base := q(fn) + ", " + q(kind) + ", " + q(expr)
+					k := "(" + base + ", " + strconv.Itoa(occ[base]) + ")"
+					occ[base]++
+					rows = append(rows, k)
 				}
 				add := func(kind string, e ast.Expr) { addText(kind, normExpr(p.TypesInfo, p.Types, e)) }
 				if fn == "task:Executor.compiledTask" {
@@ -379,9 +573,197 @@ func genPanicSites(pkgs []*packages.Package) {
 			}
 		}
 	}
+	// ---- task flows: every call of the module that hands over a *ast.Task, with where that task comes from; and every
+	// nilelem loop over a list of a LOCAL task variable (consumer = the function itself)
+	var flows []string
+	flowSeen := map[string]bool{}
+	addFlow := func(consumer, via, kind, detail string) {
+		k := "(" + q(consumer) + ", " + q(via) + ", " + q(kind) + ", " + q(detail) + ")"
+		if !flowSeen[k] {
+			flowSeen[k] = true
+			flows = append(flows, k)
+		}
+	}
+	referenced := map[types.Object]bool{}
+	type declInfo struct {
+		key string
+		obj types.Object
+		exp bool
+	}
+	var decls []declInfo
+	callGraph := map[string]map[string]bool{}
+	for _, p := range pkgs {
+		if strings.Contains(p.PkgPath, "/verifhook") || strings.Contains(p.PkgPath, "/website") {
+			continue
+		}
+		for _, f := range p.Syntax {
+			fname := p.Fset.Position(f.Pos()).Filename
+			if strings.HasSuffix(fname, "_test.go") || strings.Contains(fname, "checker_mock") {
+				continue
+			}
+			for id, obj := range p.TypesInfo.Uses {
+				if id.Pos() >= f.Pos() && id.End() <= f.End() {
+					if fo, ok := obj.(*types.Func); ok {
+						referenced[fo] = true
+					}
+				}
+			}
+			for _, d := range f.Decls {
+				fd, ok := d.(*ast.FuncDecl)
+				if !ok || fd.Body == nil {
+					continue
+				}
+				fn := shortPkg(p.PkgPath) + ":" + funcName(fd)
+				internalPkg := strings.Contains(p.PkgPath, "/internal/") || strings.HasSuffix(p.PkgPath, "/cmd/task")
+				decls = append(decls, declInfo{fn, p.TypesInfo.Defs[fd.Name], fd.Name.IsExported() && !internalPkg})
+				if callGraph[fn] == nil {
+					callGraph[fn] = map[string]bool{}
+				}
+				// closures that call themselves through the variable they are assigned to
+				closureVars := map[types.Object]bool{}
+				ast.Inspect(fd.Body, func(n ast.Node) bool {
+					if as, ok := n.(*ast.AssignStmt); ok && len(as.Lhs) == 1 && len(as.Rhs) == 1 {
+						if fl, ok := as.Rhs[0].(*ast.FuncLit); ok {
+							if id, ok := as.Lhs[0].(*ast.Ident); ok {
+								obj := p.TypesInfo.Uses[id]
+								if obj == nil {
+									obj = p.TypesInfo.Defs[id]
+								}
+								self := false
+								ast.Inspect(fl.Body, func(m ast.Node) bool {
+									if ce, ok := m.(*ast.CallExpr); ok {
+										if cid, ok := ce.Fun.(*ast.Ident); ok && obj != nil && p.TypesInfo.Uses[cid] == obj {
+											self = true
+										}
+									}
+									return true
+								})
+								if self && obj != nil {
+									closureVars[obj] = true
+									callGraph[fn+"·"+id.Name] = map[string]bool{fn + "·" + id.Name: true}
+								}
+							}
+						}
+					}
+					return true
+				})
+				ast.Inspect(fd.Body, func(n ast.Node) bool {
+					ce, ok := n.(*ast.CallExpr)
+					if !ok {
+						return true
+					}
+					keys := calleeKeys(pkgs, p, ce)
+					for _, k := range keys {
+						callGraph[fn][k] = true
+					}
+					for _, a := range ce.Args {
+						if t := p.TypesInfo.TypeOf(a); t != nil && isAstTaskPtr(t) {
+							kind, detail := taskOrigin(pkgs, p, fd, a, ce.Pos(), 0)
+							for _, k := range keys {
+								addFlow(k, fn, kind, detail)
+							}
+						}
+					}
+					return true
+				})
+				ast.Inspect(fd.Body, func(n ast.Node) bool {
+					rs, ok := n.(*ast.RangeStmt)
+					if !ok || nilElemSite(p, rs) == nil {
+						return true
+					}
+					if se, ok := rs.X.(*ast.SelectorExpr); ok {
+						if bt := p.TypesInfo.TypeOf(se.X); bt != nil && isAstTaskPtr(bt) {
+							kind, detail := taskOrigin(pkgs, p, fd, se.X, rs.Pos(), 0)
+							if kind != "param" {
+								addFlow(fn, fn, kind, detail)
+							}
+						}
+					}
+					return true
+				})
+			}
+		}
+	}
+	sort.Strings(flows)
+	var dead []string
+	for _, d := range decls {
+		if d.obj != nil && !referenced[d.obj] && !d.exp && !strings.HasSuffix(d.key, ":main") && !strings.HasSuffix(d.key, ":init") {
+			// methods may be reached through interfaces (UnmarshalYAML, Error, String …): only plain functions count
+			if fo, ok := d.obj.(*types.Func); ok && fo.Type().(*types.Signature).Recv() == nil {
+				dead = append(dead, q(d.key))
+			}
+		}
+	}
+	sort.Strings(dead)
+
+	// ---- recursion: the strongly connected components of the static call graph (calls through interfaces reach every
+	// implementing method of the module) that contain a cycle, and closures that call themselves
+	var recRows []string
+	{
+		index, low := map[string]int{}, map[string]int{}
+		on := map[string]bool{}
+		var stack []string
+		next := 0
+		var names []string
+		for k := range callGraph {
+			names = append(names, k)
+		}
+		sort.Strings(names)
+		var strong func(v string)
+		strong = func(v string) {
+			index[v], low[v] = next, next
+			next++
+			stack = append(stack, v)
+			on[v] = true
+			var succ []string
+			for w := range callGraph[v] {
+				succ = append(succ, w)
+			}
+			sort.Strings(succ)
+			for _, w := range succ {
+				if _, known := callGraph[w]; !known {
+					continue
+				}
+				if _, seen := index[w]; !seen {
+					strong(w)
+					low[v] = min(low[v], low[w])
+				} else if on[w] {
+					low[v] = min(low[v], index[w])
+				}
+			}
+			if low[v] == index[v] {
+				var comp []string
+				for {
+					w := stack[len(stack)-1]
+					stack = stack[:len(stack)-1]
+					on[w] = false
+					comp = append(comp, w)
+					if w == v {
+						break
+					}
+				}
+				sort.Strings(comp)
+				if len(comp) > 1 || callGraph[v][v] {
+					for _, m := range comp {
+						recRows = append(recRows, "("+q(m)+", "+q(strings.Join(comp, " "))+")")
+					}
+				}
+			}
+		}
+		for _, v := range names {
+			if _, seen := index[v]; !seen {
+				strong(v)
+			}
+		}
+		sort.Strings(recRows)
+	}
+
 	sort.Strings(rows)
-	body := "/-- (function, kind, expression) -/\ndef sites : List (String × String × String) := [\n  " + strings.Join(rows, ",\n  ") + "]\n"
+	body := "/-- (function, kind, expression, occurrence) -/\ndef sites : List (String × String × String × Nat) := [\n  " + strings.Join(rows, ",\n  ") + "]\n"
 	sort.Strings(compiled)
 	body += "\n/-- how `Executor.compiledTask` fills the fields of the compiled task that are lists of pointers (what a null YAML\nlist entry turns into a nil element of): (field, how) with how = the normalised right-hand side of the assignment,\n`filtered-nil` = elements appended in a loop over the definition's list that skips nil elements first -/\ndef compiledLists : List (String × String) := [\n  " + strings.Join(compiled, ",\n  ") + "]\n"
+	body += "\n/-- every call of the module that hands over a `*ast.Task`: (callee — for a call through an interface every implementing\nmethod —, calling function, origin kind, origin detail); origin = `param` (a parameter of the calling function), `call` +\nthe function whose result it is (through the textually last assignment before the call), or `other`.  Also, for every\n`nilelem` loop over a list of a LOCAL task variable, a row (function, function, origin of that variable) -/\ndef taskFlows : List (String × String × String × String) := [\n  " + strings.Join(flows, ",\n  ") + "]\n"
+	body += "\n/-- plain functions of the module that nothing in the module refers to and that are not part of its public API -/\ndef deadFuncs : List String := [" + strings.Join(dead, ", ") + "]\n"
+	body += "\n/-- functions on a cycle of the static call graph (function, members of its strongly connected component); `f·g` is the\nclosure assigned to the local `g` of `f` that calls itself -/\ndef recursive : List (String × String) := [\n  " + strings.Join(recRows, ",\n  ") + "]\n"
 	writeLean("PanicSites", "Expressions that can panic by themselves (index, slice, unchecked type assertion, Must*, panic) on the load/compile/resolve/list path.", body)
 }
